@@ -254,7 +254,7 @@ def block(draw, depth, form_names, cs=None, alt=False):
     out = []
     cs = list(cs) if cs is not None else [None, None]
     for _ in range(draw(st.integers(1, 6))):
-        k = draw(st.integers(0, 10))
+        k = draw(st.integers(0, 11))
         if k <= 3:
             out.extend(draw(painted()))
         elif k <= 6:
@@ -279,6 +279,35 @@ def block(draw, depth, form_names, cs=None, alt=False):
                         out.append((op.upper() if i else op,) + tuple(draw(COL) for _ in range(need[i])))
                         cs[i] = need[i]
             out.append(("Do", name))
+        elif k == 11 and depth == 0 and cs[0] is not None and cs[1] is not None:
+            # q/Q nested two deep with colour spaces of other component counts selected at each level; after every Q a
+            # colour is set in the space that was current at the matching q, and something is painted
+            def other(n):
+                return draw(st.sampled_from([m for m in (1, 3, 4) if m != n]))
+
+            def setcs(stroking, n):
+                op = {1: "g", 3: "rg", 4: "k"}[n]
+                return (op.upper() if stroking else op,) + tuple(draw(COL) for _ in range(n))
+
+            def bare(stroking, n):
+                name = draw(st.sampled_from(["sc", "scn"]))
+                return ("SC" if stroking else "sc", tuple(draw(COL) for _ in range(n)), name.upper() if stroking else name)
+
+            s = draw(st.booleans())
+            n0 = cs[1 if s else 0]
+            n1 = other(n0)
+            n2 = other(n1)
+            out.append(("q",))
+            out.append(setcs(s, n1))
+            out.append(("q",))
+            out.append(setcs(s, n2))
+            out.extend(draw(painted()))
+            out.append(("Q",))
+            out.append(bare(s, n1))
+            out.extend(draw(painted()))
+            out.append(("Q",))
+            out.append(bare(s, n0))
+            out.extend(draw(painted()))
         elif k == 10:
             # colour set in the *current* colour space, whichever operator established it (g/rg/k/cs, before or
             # after an enclosing q .. Q)
